@@ -20,12 +20,19 @@ definition on everything explored does the disagreement end as `no-failing-input
 Besides the random boundary values every (item, configuration) gets one *marker* value: every attribute at every
 depth set, non-default and distinguishable from its neighbours, so swapped / dropped / wrongly gated attributes always
 change the bytes.
+ 3. histories of ONE value object (harness/c13_inplace.py): the same structure instance is written, mutated in place
+    (attribute of an inner structure assigned through the inner object, list appended to / element replaced / removed,
+    dict item set / added / removed, attribute of a list element, and plain assignment of an attribute of the written object:
+    bytes -> other bytes, ...), and written again under the same settings object, through StreamOut.add and through repeated
+    calls of one generated client / server with the same argument / result objects: EVERY write must be the interpreter's
+    encoding of the values as they stand at that moment.
 """
 import concurrent.futures, multiprocessing, os, time
 import vf
 from schema_proto2lean import load_env
 import schema_tie as T
 import schema_c13_focus as F
+import c13_inplace as IP
 
 LEVEL = "proof"
 
@@ -79,8 +86,13 @@ def run(ctx):
                 "plus one marker value (every attribute at every depth set, non-default, distinguishable from its neighbours); items on which the "
                 "repository's reader of the definition disagrees with the independent reader get 6 (thorough: 12) more values: "
                 "real bytes (Structure.encode; generated client -> fake RMC client -> generated server with a recording implementation) vs the compiled Lean "
-                "interpreter of the translated definition, and real decode vs the interpreter's visible value; plus truncations and required-None encodings. "
-                "distinct non-trivial = distinct (module, item, configuration, repetition) cases that agreed" % ("1" if quick else "6"))
+                "interpreter of the translated definition, and real decode vs the interpreter's visible value; plus truncations and required-None encodings; "
+                "plus histories of ONE object per (structure class | method, configuration, marker/random start value): write, then %d in-place mutations "
+                "(inner structure attribute through the inner object, list append/setitem/del, dict set/new/del, attribute of a list element, attribute of the "
+                "written object incl. bytes->other bytes; categories in rotation so that every class sees every category it has a site for) each followed by a write "
+                "under the same settings object (StreamOut.add, one accumulating stream, repeated calls of one generated client/server with the same objects): "
+                "every write vs the interpreter's encoding of the current value. "
+                "distinct non-trivial = distinct (module, item, configuration, repetition) cases that agreed" % ("1" if quick else "6", 4 if quick else 6))
     # ---- 1. translate + cross-check the two readers
     # The definition, as the independent reader reads it, is the authority of the property. A disagreement with the
     # repository's own reader is not reported here: the items the readings differ on become the *focus* of the tie
@@ -107,6 +119,7 @@ def run(ctx):
     ctx.extra["obligation_wall_s"] = round(time.time() - t0, 1)
     # ---- 3. exhaustive tie, one fresh process per (module, slice of configurations)
     per_item = 1 if quick else 6
+    ip_steps = 4 if quick else 6          # mutations per object history (each followed by a write)
     tasks = []
     weight = {}
     for n, env in envs.items():
@@ -119,14 +132,35 @@ def run(ctx):
             opts = {"marker": True, "shrink": True}
             if n in focus:
                 opts.update(focus=focus[n], focus_reps=6 if quick else 12)
-            tasks.append((repo, n, cfgs[i:i + size], ctx.seed, per_item, exe, True, opts))
-    tasks.sort(key=lambda t: -weight[t[1]] * len(t[2]))
+            tasks.append(("tie", (repo, n, cfgs[i:i + size], ctx.seed, per_item, exe, True, opts)))
+            # the in-place histories of the same slice (own process: own objects, own driver batch)
+            tasks.append(("inplace", (repo, n, cfgs[i:i + size], ctx.seed, ip_steps, exe, i)))
+    tasks.sort(key=lambda t: -weight[t[1][1]] * len(t[1][2]))
     mp = multiprocessing.get_context("fork")
     total_structs, total_methods, unsupported = {}, {}, 0
     soft, hard = [], []
     crashed = {}
+    ip = {"diffs": [], "histories": 0, "writes": 0, "avail": set(), "seen": set(), "crashed": {}}
     with mp.Pool(processes=min(16, os.cpu_count() or 4), maxtasksperchild=1) as pool:
-        for res in pool.imap_unordered(T.task, tasks):
+        for res in pool.imap_unordered(IP.dispatch, tasks):
+            if res.get("family") == "inplace":
+                if res["error"]:
+                    if "RuntimeError: driver " in res["error"] or "TimeoutExpired" in res["error"] or "MemoryError" in res["error"]:
+                        raise vf.InfraError("in-place worker for %s crashed:\n%s" % (res["module"], res["error"]))
+                    ip["crashed"].setdefault(res["module"], res["error"])
+                    continue
+                for k in res["keys"]:
+                    ctx.case(key=k, nontrivial=True)
+                ctx.evaluations += res["writes"] - len(res["keys"])
+                for t, c in res["tags"].items(): ctx.tag(t, c)
+                for s_ in res["samples"]:
+                    if not any("history" in x for x in ctx.samples) and len(ctx.samples) < 6: ctx.samples.append(s_)
+                ctx.traces_validated += res["lines"]
+                ip["histories"] += res["cases"]; ip["writes"] += res["writes"]
+                ip["avail"].update((res["module"],) + tuple(x) for x in res["avail"])
+                ip["seen"].update((res["module"],) + tuple(x) for x in res["seen"])
+                ip["diffs"].extend(res["diffs"])
+                continue
             if res["error"]:
                 if "RuntimeError: driver " in res["error"] or "TimeoutExpired" in res["error"] or "MemoryError" in res["error"]:
                     raise vf.InfraError("worker for %s crashed:\n%s" % (res["module"], res["error"]))
@@ -186,6 +220,32 @@ def run(ctx):
                 reported += 1
                 break
             if reported >= 25: break
+    # ---- 4b. histories of one object: structures first (those that contain no other differing structure first), then
+    # methods; the smallest history of each item; items the main tie already reported are the same difference
+    ipd = [d for d in ip["diffs"] if (d["module"], d.get("struct") or ("%s.%s" % (d.get("protocol"), d.get("method")))) not in seen_items]
+    ip_structs = {}
+    for d in ipd:
+        if d.get("struct"): ip_structs.setdefault(d["module"], set()).add(d["struct"])
+    ip_inner = {n: (F.innermost(envs[n], ss) if n in envs else set()) for n, ss in ip_structs.items()}
+    ipd.sort(key=lambda d: (0 if d.get("struct") in ip_inner.get(d["module"], ()) else 1 if d.get("struct") else 2,
+                            len(d.get("initial_value") or d.get("initial_args") or ""), d["module"], d["cfg"]))
+    ip_reported = 0
+    for d in ipd:
+        item = d.get("struct") or ("%s.%s" % (d.get("protocol"), d.get("method")))
+        if (d["module"], item) in seen_items or ip_reported >= 12: continue
+        seen_items.add((d["module"], item))
+        ip_reported += 1
+        ctx.violation("inplace:%s:%s" % (d["module"], item), "%s [%s %s cfg=%s]" % (d["what"], d["module"], item, d["cfg"]),
+                      dict(d, how="/venv/bin/python /verif/harness/c13_inplace.py <this file> re-runs the history of a structure on the tree named by NX_REPO; "
+                                  "'writes_real' are the bytes of each write of the ONE object, 'writes_definition' the compiled interpreter's (nxdrv_C13) encoding of the value as it stood at that write"))
+    for n, tb in sorted(ip["crashed"].items()):
+        if not per_mod.get(n) and n not in explained and not any(d["module"] == n for d in ip["diffs"]):
+            ctx.corr_break("inplace-worker-crash:" + n, "driving the write/mutate/write histories of module %s raised an exception the tie does not expect" % n, {"file": n, "traceback": tb[-3000:]})
+    ctx.extra["inplace_histories"] = ip["histories"]
+    ctx.extra["inplace_writes_compared"] = ip["writes"]
+    ctx.extra["inplace_mutations_per_history"] = ip_steps
+    ctx.extra["inplace_struct_x_mutation_category_pairs"] = {"available": len(ip["avail"]), "visited": len(ip["avail"] & ip["seen"])}
+    ctx.extra["inplace_disagreements"] = len(ip["diffs"])
     for n, tb in sorted(crashed.items()):
         if not per_mod.get(n) and n not in explained:
             ctx.corr_break("worker-crash:" + n, "driving the generated module %s raised an exception the tie does not expect" % n, {"file": n, "traceback": tb[-3000:]})
